@@ -196,6 +196,7 @@ def secStep (d : DState) (t : List String) : DState × String :=
         | "U", [pl] => (nat? pl).map .unsecured
         | "S", m => (d.msg? m).map (fun m => .secured (some m))
         | "P", [] => some (.secured none)
+        | "E", [] => some (.secured none)     -- the envelope decodes, its content choice is not signedData
         | "O", [] => some .otherNH
         | "V", [] => some .badVersion
         | _, _ => none
